@@ -50,7 +50,7 @@ def main():
     sel = [a for a in sys.argv[1:] if not a.startswith("--")]
     if sel:
         dirs = [d for d in dirs if any(a in os.path.basename(d) for a in sel)]
-    with ThreadPoolExecutor(max_workers=6) as ex:
+    with ThreadPoolExecutor(max_workers=int(os.environ.get("MMD_JOBS", "6"))) as ex:
         res = list(ex.map(run_one, dirs))
     missed = 0
     for d, meta, results, err in res:
